@@ -910,10 +910,10 @@ def run(ctx):
     cases += [c for c in (make_case("C11-e2e-reserved", i, "reserved") for i in range(ctx.n(3, 30))) if c]
     cases += [c for c in (make_case("C11-e2e-casepair", i, "casepair") for i in range(ctx.n(1, 6))) if c]
     cases += [c for c in (make_case("C11-e2e-siblings", i, "siblings") for i in range(ctx.n(1, 8))) if c]
-    cases += [c for c in (make_case("C11-e2e-prefixsibs", i, "prefixsibs") for i in range(ctx.n(3, 16))) if c]
-    cases += [c for c in (make_case("C11-e2e-emptyroot", i, "emptyroot") for i in range(ctx.n(3, 16))) if c]
-    cases += [c for c in (make_case("C11-e2e-midmarker", i, "midmarker") for i in range(ctx.n(3, 16))) if c]
-    cases += [c for c in (make_case("C11-e2e-nsrepeat", i, "nsrepeat") for i in range(ctx.n(3, 16))) if c]
+    cases += [c for c in (make_case("C11-e2e-prefixsibs", i, "prefixsibs") for i in range(ctx.n(2, 16))) if c]
+    cases += [c for c in (make_case("C11-e2e-emptyroot", i, "emptyroot") for i in range(ctx.n(2, 16))) if c]
+    cases += [c for c in (make_case("C11-e2e-midmarker", i, "midmarker") for i in range(ctx.n(2, 16))) if c]
+    cases += [c for c in (make_case("C11-e2e-nsrepeat", i, "nsrepeat") for i in range(ctx.n(2, 16))) if c]
     checks = run_e2e(ctx, cases)
     eval_e2e(ctx, checks, "c11e2e", len(cases))
     seqs = load_corpus_sequences() + [q for q in (make_sequence("C11-seq", i) for i in range(ctx.n(2, 24))) if q]
